@@ -80,7 +80,7 @@ var spvVersions = []spirv.Version{spirv.Version1_0, spirv.Version1_1, spirv.Vers
 var riskyKnobs = []string{"rawShift", "clz", "privInit", "swBreak", "absU", "vecInit"}
 
 func setKnob(o *wgenOpts, k string) {
-	o.negInit, o.vecInit, o.rawShift, o.clz, o.privInit, o.swBreak, o.absU = false, false, false, false, false, false, false
+	o.negInit, o.vecInit, o.rawShift, o.clz, o.privInit, o.swBreak, o.absU, o.shadowUse = false, false, false, false, false, false, false, false
 	switch k {
 	case "rawShift":
 		o.rawShift = true
